@@ -107,7 +107,7 @@ func runExifProps(c *Ctx, which string) error {
 	for i := 0; i < n; i++ {
 		r := genRecord(c)
 		lo := layoutOpt{shuffleEntries: c.Rng.Intn(2) == 0, foreign: c.Rng.Intn(4), pad: []int{0, 0, 1, 7, 40}[c.Rng.Intn(5)], headerPad: []int{0, 0, 0, 2, 18}[c.Rng.Intn(5)],
-			valuesFirst: c.Rng.Intn(2) == 0, entryOrderVals: c.Rng.Intn(2) == 0}
+			valuesFirst: c.Rng.Intn(2) == 0, entryOrderVals: c.Rng.Intn(2) == 0, ifd1: c.Rng.Intn(3) == 0}
 		// the same random choices for both byte orders: re-seed the layout decisions
 		st := c.Rng.Int63()
 		sub := *c
@@ -116,6 +116,11 @@ func runExifProps(c *Ctx, which string) error {
 		sub.Rng = newRand(st)
 		be := buildTIFF(&sub, r, true, lo)
 		gs = append(gs, gcase{r, lo, le, be})
+		if lo.ifd1 {
+			c.Stat("layout.ifd1-successor")
+		} else {
+			c.Stat("layout.ifd0-only-chain")
+		}
 	}
 	wk := make([]*Worker, 0)
 	_ = wk
